@@ -162,6 +162,32 @@ def validators_alone(ctx: Ctx, sub, n: int) -> Dict[str, int]:
         class Inner:
             pass
 
+    import numbers
+
+    class Declared:      # claims to be an integer (numpy-style registration) without behaving like one
+        def __repr__(self):
+            return "Declared()"
+
+    numbers.Integral.register(Declared)
+
+    class Indexable:     # converts to an int on request, but is not one
+        def __init__(self, v):
+            self.v = v
+
+        def __index__(self):
+            return self.v
+
+        def __int__(self):
+            return self.v
+
+        def __repr__(self):
+            return f"Indexable({self.v})"
+
+    class Touchy(int):   # an int whose comparisons with plain ints misbehave
+        def __le__(self, other):
+            raise RuntimeError("compare")
+        __ge__ = __lt__ = __gt__ = __le__
+
     Position = sub.types.Position
     instances = [Plain(), Outer.Inner(), Position(line=0, character=0), None, 3, "s"]
     attributes = [attrs.fields(Position).line, "some_name", "", 7]
@@ -171,7 +197,8 @@ def validators_alone(ctx: Ctx, sub, n: int) -> Dict[str, int]:
         st.lists(st.integers(), max_size=2), st.dictionaries(st.text(max_size=2), st.integers(), max_size=2),
         st.fractions(), st.decimals(allow_nan=True), st.complex_numbers(allow_nan=False),
         st.sampled_from([2.0, 0.0, 1e10, object, int]),
-        st.integers().map(LineNumber), st.integers(-3, 3).map(LineNumber), st.sampled_from(int_enum_members(sub) or [LineNumber(1)]),
+        st.integers().map(LineNumber), st.integers(-3, 3).map(LineNumber),
+        st.sampled_from([Declared(), Indexable(3), Indexable(-1), Indexable(2**40)]), st.sampled_from(int_enum_members(sub) or [LineNumber(1)]),
         # containers and other shapes an error message has to cope with
         st.lists(st.integers(), max_size=3).map(tuple), st.sampled_from([(), (1,), (1, 2), ((),), ("%s",), ("a", "b", "c")]),
         st.frozensets(st.integers(), max_size=2), st.sets(st.text(max_size=2), max_size=2), st.binary(max_size=3).map(bytearray),
